@@ -80,6 +80,7 @@ typedef struct M_pixman_glyph_cache_t M_pixman_glyph_cache_t;
 int main(int argc, char **argv)
 {
     vf_init(argc, argv, "C17", "model_checking");
+    vf_quick_is_deep();      /* the larger alphabets complete in well under a minute: the quick tier uses them too */
     bfs_replay_adopt_tier();
     int th = vf_is_thorough();
     vf_rule = "cache half (E2): breadth-first search over canonical cache states (slot contents in {NULL, TOMBSTONE, key}, MRU order, freeze count, read white-box); "
